@@ -168,7 +168,8 @@ def run(ctx, rep):
     rep.rule('R14.7', 'a builtin is answered by the builtin: every way the compiler translates a call ends in Call / CallBuiltin (the compiler has no answers of its own for a builtin)')
     check_calls_are_calls(ctx, rep, 'R14.7')
     rep.rule('R14.8', 'print substitutes in one pass: text that an argument inserted is never searched for placeholders again')
-    check_print_single_pass(ctx, rep, 'R14.8')
+    rep.rule('R14.9', 'print prints all of its format text: the walk over the pieces between the placeholders is not cut short by the number of arguments')
+    check_print_single_pass(ctx, rep, 'R14.8', 'R14.9')
 
 
 SEARCHES = ('replacen', 'replace', 'find', 'rfind', 'split', 'splitn', 'rsplit', 'rsplitn', 'split_once', 'rsplit_once', 'match_indices',
@@ -184,7 +185,7 @@ def _str_method(name):
     return name.split('::')[-1]
 
 
-def check_print_single_pass(ctx, rep, rule):
+def check_print_single_pass(ctx, rep, rule, rule2=None):
     """`print` replaces the placeholders of its FIRST argument by the remaining arguments in order.  Necessary for that: a
     placeholder is looked for only in the format text itself.  A search (replacen / find / split ...) on text that was put
     together from several pieces (the result of an earlier replacement, a buffer that push_str built) also finds `{}` that
@@ -192,54 +193,9 @@ def check_print_single_pass(ctx, rep, rule):
     over the locals of call_print (helpers that are new are spliced in): no search receives text derived from a composite."""
     F = ctx.facts()
     fn = F.fn('builtins::call_print')
-    derives = {}      # local -> set of locals it is derived from
-
-    def edge(src, dst):
-        if src is not None and dst is not None and src != dst:
-            derives.setdefault(dst, set()).add(src)
-
-    def locals_of_rv(rv):
-        acc = set()
-        def walk(x):
-            if isinstance(x, dict):
-                if 'local' in x and 'proj' in x:
-                    acc.add(x['local'])
-                    for e in x['proj']:
-                        if isinstance(e, dict) and 'index' in e:
-                            acc.add(e['index'])
-                for v in x.values():
-                    walk(v)
-            elif isinstance(x, list):
-                for v in x:
-                    walk(v)
-        walk(rv)
-        return acc
-
-    def mut_target(op):
-        """base local of the place a `&mut` argument points at (through reborrow chains), else None"""
-        l = op_base_local(op)
-        for _ in range(12):
-            if l is None:
-                return None
-            d = fn.single_def(l)
-            if d is None or d[0] != 'assign':
-                return l if 'mut' in fn.local_ty(l) or True else None
-            rv = d[3]
-            if rv['k'] in ('ref', 'rawptr'):
-                l2 = rv['place']['local']
-                if not any(e == 'deref' for e in rv['place']['proj']):
-                    return l2
-                l = l2
-            elif rv['k'] == 'use' and op_base_local(rv['op']) is not None:
-                l = op_base_local(rv['op'])
-            else:
-                return l
-        return l
-
-    for b, si, st in fn.stmts():
-        if st['k'] == 'assign':
-            for l in locals_of_rv(st['rv']):
-                edge(l, st['place']['local'])
+    from rules.shared import LocalFlow
+    LF = LocalFlow(fn, follow_index=False)
+    mut_target = LF.mut_target
     composite = {}    # local -> why
     searches = []
     walks = 0
@@ -248,18 +204,10 @@ def check_print_single_pass(ctx, rep, rule):
         m = _str_method(name)
         dest = t['dest']['local']
         argl = [op_base_local(a) for a in t['args']]
-        ranged = 'ops::index::Index' in name or name.endswith('::get') or name.endswith('::get_unchecked')
-        if not ranged:
-            for a in argl:
-                edge(a, dest)
-        else:
-            # a sub-slice of a composite taken at a computed position may well exclude what was inserted: not followed (stated limit)
-            pass
+        # (a sub-slice of a composite taken at a computed position may well exclude what was inserted: Index / get are not followed)
         first_ty = fn.local_ty(argl[0]) if argl and argl[0] is not None else ''
         if argl and argl[0] is not None and '&' in first_ty and 'mut' in first_ty:
             tgt = mut_target(t['args'][0])
-            for a in argl[1:]:
-                edge(a, tgt)
             if m in BUILDERS:
                 composite[tgt] = '%s at %s' % (m, span_loc(t['span']))
         if m in ('replacen', 'replace', 'concat', 'join', 'repeat') or name.endswith('fmt::format') or name.endswith('fmt::format::format_inner'):
@@ -272,16 +220,7 @@ def check_print_single_pass(ctx, rep, rule):
             walks += 1
 
     def reach_composite(l):
-        seen, work = set(), [l]
-        while work:
-            x = work.pop()
-            if x in seen or x is None:
-                continue
-            seen.add(x)
-            if x in composite:
-                return x
-            work.extend(derives.get(x, ()))
-        return None
+        return LF.reaches(l, composite)
 
     n = 0
     for b, t, m in searches:
@@ -297,6 +236,21 @@ def check_print_single_pass(ctx, rep, rule):
         else:
             raise CheckerError('UNDECIDED rule=%s construct=builtins::call_print: neither a placeholder search nor a character walk found' % rule)
     rep.count('placeholder_searches', len(searches))
+    # R14.9 (same walk): the pieces between the placeholders are all printed - the iteration over what the search yields is not
+    # tied to another, possibly shorter sequence (`pieces.zip(args)` stops with the arguments and drops the rest of the text)
+    ENDS_EARLY = ('zip', 'take', 'take_while', 'map_while', 'step_by', 'skip', 'skip_while', 'filter', 'filter_map', 'nth', 'scan', 'fuse_first', 'next_chunk')
+    if rule2:
+        LF2 = LocalFlow(fn, follow_index=True)
+        for b, t, m in searches:
+            if m not in ('split', 'splitn', 'rsplit', 'split_inclusive', 'match_indices', 'split_terminator', 'matches'):
+                continue
+            fw = LF2.forward(t['dest']['local'])
+            cut = []
+            for b2, t2 in fn.calls():
+                n2 = callee_name(t2)
+                if 'iter' in n2 and n2.split('::')[-1] in ENDS_EARLY and t2['args'] and op_base_local(t2['args'][0]) in fw:
+                    cut.append('%s at %s' % (n2.split('::')[-1], span_loc(t2['span'])))
+            rep.ob(not cut, rule2, fn.path, 'pieces of the format text (%s)' % m, 'the walk over the pieces of the format text ends only when the text ends; adaptors that can end it earlier: %s' % (cut or 'none'), span_loc(t['span']))
 
 
 def check_calls_are_calls(ctx, rep, rule):
